@@ -159,3 +159,39 @@ Proof.
   cbn [map] in H. injection H as H1 H2. cbn [combine forallb fst snd].
   rewrite H1, Nat.eqb_refl. cbn [andb]. apply IH, H2.
 Qed.
+
+(* NE is the `nonempty_strands` guard of C06 *)
+Lemma nonempty_strands_splitS seq : forall b,
+  nonempty_strands sPlus seq b = true <->
+  match splitS seq with
+  | s :: ss => (b = false \/ s <> []) /\ Forall (fun t : list pstr => t <> []) ss
+  | [] => False
+  end.
+Proof.
+  induction seq as [|x r IH]; intros b.
+  - cbn [nonempty_strands splitS]. destruct b; cbn [negb]; split.
+    + discriminate.
+    + intros [[H|H] _]; congruence.
+    + auto.
+    + reflexivity.
+  - cbn [nonempty_strands splitS]. rewrite (str_eqb_sym x sPlus). destruct (str_eqb sPlus x).
+    + rewrite andb_true_iff, (IH true).
+      destruct (splitS r) as [|s ss] eqn:E; [exfalso; exact (splitS_nonnil r E)|].
+      destruct b; cbn [negb]; split.
+      * intros [H _]; discriminate.
+      * intros [[H|H] _]; congruence.
+      * intros [_ [[H|H] F]]; [discriminate|]. split; [auto|]. constructor; assumption.
+      * intros [_ F]. inversion F; subst. split; [reflexivity|]. split; [right; assumption|assumption].
+    + rewrite (IH false). destruct (splitS r) as [|s ss] eqn:E; [exfalso; exact (splitS_nonnil r E)|].
+      split.
+      * intros [_ F]. split; [right; discriminate|exact F].
+      * intros [_ F]. split; [left; reflexivity|exact F].
+Qed.
+
+Theorem NE_iff_nonempty_strands seq : NE seq <-> nonempty_strands sPlus seq true = true.
+Proof.
+  rewrite nonempty_strands_splitS. unfold NE.
+  destruct (splitS seq) as [|s ss] eqn:E; [exfalso; exact (splitS_nonnil seq E)|]. split.
+  - intros F. inversion F; subst. split; [right; assumption|assumption].
+  - intros [[H|H] F]; [discriminate|]. constructor; assumption.
+Qed.
